@@ -33,7 +33,7 @@ PARTIAL = [
 
 def correspond(rep, tier, seed):
     rep.partial.extend(PARTIAL)
-    scs, failing = sendflow.correspond_sendflow(rep, tier, seed + 1, profiles=("flow", "starve", "bufcap", "bp", "limits", "starve", "mixed", "reset"))
+    scs, failing = sendflow.correspond_sendflow(rep, tier, seed + 1, profiles=("flow", "starve", "bufcap", "bp", "limits", "starve", "mixed", "reset", "starvedrop", "lastframe", "starvedrop"))
     n_viol = sendflow.oracle_sendflow(rep, scs, "C16")
     n_viol += sendflow.capacity_usable_oracle(rep, scs)
     if failing and n_viol == 0:
